@@ -137,7 +137,7 @@ def run(ctx, rep):
         rep.ob('R12.5', 'absent-weather-is-default', ok, detail)
     # shared mechanism: the clock-time conversion wraps into [0, 24) after the offset and cannot fail (R11.4, R11.7)
     from . import shared, c11 as _c11
-    shared.include(ctx, rep, _c11.run, {'R11.4', 'R11.7'}, why='every reported hour becomes a valid clock time')
+    shared.include(ctx, rep, _c11.run, {'R11.3', 'R11.4', 'R11.7'}, why='every reported hour becomes a valid clock time (minutes from the same hour, wraps, bounded operands)')
     # the policy layer's scope and invalid-gate rules are necessary here too: a policy that replaces a *valid* time, or a
     # time outside its scope, makes that time depend on parameters (the other prayer's angle, the nearest latitude) it
     # is documented not to depend on
